@@ -435,6 +435,23 @@ func c05Chain(r *RunCtx, c int) error {
 	trace := []interface{}{}
 	nblocks := r.Scale(14, 40)
 	for b := 0; b < nblocks; b++ {
+		// directed: one ordinary replicated file per chain, and one account that keeps proving it under the
+		// upper-case spelling of its address (the same account must never occupy two prover slots)
+		if b == 0 {
+			data := []byte(fmt.Sprintf("kept-file-%d", c))
+			root, item, pj := c05OneChunkFile(data)
+			exp := e.Height + 14400*40
+			res := e.Run(&storagetypes.MsgPostFile{Creator: users[0].String(), Merkle: root, FileSize: int64(len(data)), MaxProofs: 3, Expires: exp, Note: "{}"})
+			r.Hist("chain_msgs", "storage.MsgPostFile(directed):"+res.Out)
+			files = append(files, posted{root, users[0].String(), e.Height, item, pj})
+		} else if p.Chance(2, 3) {
+			f := files[0]
+			for _, who := range []string{Spell(users[1], true), Spell(users[2], p.Chance(1, 2))} {
+				res := e.Run(&storagetypes.MsgPostProof{Creator: who, Item: f.item, HashList: f.proof, Merkle: f.root, Owner: f.owner, Start: f.start, ToProve: 0})
+				r.Hist("chain_msgs", "storage.MsgPostProof(directed):"+res.Out)
+				trace = append(trace, map[string]interface{}{"block": e.Height, "msg": "storage.MsgPostProof", "creator": who, "file": 0, "out": res.Out})
+			}
+		}
 		nm := 1 + p.Intn(5)
 		for m := 0; m < nm; m++ {
 			u := PickOne(p, users)
